@@ -7,7 +7,8 @@
    delay, backend eviction PlEvict / expiry PlExpire, miss-path stores PlEnvStore).  [hash] is
    keyForPrefetch as a function of the cache key (question, client group); the theorems hold for every
    such function, injective or not. *)
-From Mos Require Import Base.Prelude Router.Prefetch Router.PrefetchProofs.
+From Mos Require Import Base.Prelude Cache.Netlist Router.Prefetch Router.PrefetchProofs
+  Router.PrefetchGroups Router.PrefetchGroupsProofs.
 Local Open Scope Z_scope.
 
 (* ------------------------------------------------------------------ single flight *)
@@ -271,6 +272,130 @@ Theorem C19_big_refines_small : forall (hash : N -> N) es t0,
 Proof. intros hash es t0. exact (big_refines_small hash es (p_init t0)). Qed.
 Print Assumptions C19_big_refines_small.
 
+(* ------------------------------------------------------------------ client groups (round 3)
+
+   The key of the LTS is the cache key (question, client group).  Router/PrefetchGroups.v makes the two components
+   explicit: a client is an address or "no valid address", its group is the ip-marker label of the address
+   (Cache/Netlist.v mark_of = cacheCtl.ipMark, C07's model), the key is pg_key mk question client.
+
+   The refresh goroutine gets the client ADDRESS — a value — when it is spawned; the request context of the hit
+   is a pooled object that is zeroed and recycled as soon as the hit is written out, i.e. long before the
+   upstream answers.  In the model: the (question, group) key, the 64-bit key and the spawning hit of a refresh
+   thread are fields of the thread that no step of anybody changes ... *)
+Theorem C19_refresh_key_immutable : forall (hash : N -> N) s l s' j r,
+  nth_error (p_refs s) j = Some r -> p_step hash s l = Some s' ->
+  exists r', nth_error (p_refs s') j = Some r' /\ r_q r' = r_q r /\ r_key r' = r_key r /\ r_by r' = r_by r.
+Proof. exact refresh_key_immutable. Qed.
+Print Assumptions C19_refresh_key_immutable.
+
+(* ... hence: a successful refresh stores under the key of the hit that started it — the hit thread r_by r, whose
+   reserve succeeded — and under no other key. *)
+Theorem C19_refresh_stores_under_hit_key : forall (hash : N -> N) s j r v ttl s',
+  (exists t0 ls, p_run hash ls (p_init t0) = Some s) ->
+  nth_error (p_refs s) j = Some r -> r_pc r = RfStore v ttl false -> p_step hash s (PlRef j) = Some s' ->
+  exists h, nth_error (p_hits s) (r_by r) = Some h /\ h_q h = r_q r /\ h_att h = Some true /\
+    r_key r = hash (h_q h) /\
+    p_lookup (h_q h) (p_cache s') = Some (mkPentry (p_now s) (p_now s + ttl) v false) /\
+    (forall k, k <> h_q h -> p_lookup k (p_cache s') = p_lookup k (p_cache s)).
+Proof. exact refresh_stores_under_hit_key. Qed.
+Print Assumptions C19_refresh_stores_under_hit_key.
+
+(* the key code is injective: one key = one (question, group); clients of one group share it *)
+Theorem C19_group_key : forall mk q1 c1 q2 c2,
+  pg_marker_bytes mk -> (q1 < 4294967296)%N -> (q2 < 4294967296)%N ->
+  (pg_key mk q1 c1 = pg_key mk q2 c2 <-> q1 = q2 /\ pg_group mk c1 = pg_group mk c2).
+Proof.
+  intros mk q1 c1 q2 c2 MB L1 L2. split.
+  - apply pg_key_inj; auto.
+  - intros [-> G]. apply pg_key_same_group. exact G.
+Qed.
+Print Assumptions C19_group_key.
+
+(* With clients (C19: "later hits see renewed TTLs"; C07: "cached answers go only to the same client group"):
+   the refresh was started by a hit of client c for question q.  After its store (1) EVERY client of c's group
+   finds the renewed entry for q; (2) for every other question or every client of any other group — labelled,
+   unlabelled, or without a valid address — the cache holds exactly what it held before: nothing appeared,
+   nothing changed.  Tied to the code by kind `prefetchgrp` (ip marker configured, clients of several groups). *)
+Theorem C19_refresh_store_grouped : forall (hash : N -> N) mk s j r v ttl s' q c,
+  (exists t0 ls, p_run hash ls (p_init t0) = Some s) ->
+  nth_error (p_refs s) j = Some r -> r_pc r = RfStore v ttl false -> p_step hash s (PlRef j) = Some s' ->
+  pg_marker_bytes mk -> (q < 4294967296)%N ->
+  (forall h, nth_error (p_hits s) (r_by r) = Some h -> h_q h = pg_key mk q c) ->
+  (forall c2, pg_group mk c2 = pg_group mk c ->
+     pg_lookup mk (p_cache s') q c2 = Some (mkPentry (p_now s) (p_now s + ttl) v false)) /\
+  (forall q2 c2, (q2 < 4294967296)%N -> (q2 <> q \/ pg_group mk c2 <> pg_group mk c) ->
+     pg_lookup mk (p_cache s') q2 c2 = pg_lookup mk (p_cache s) q2 c2).
+Proof. exact refresh_store_grouped. Qed.
+Print Assumptions C19_refresh_store_grouped.
+
+(* (2) for ANY answer of the upstream (a negative one is set-if-absent under the hit's key, nowhere else) *)
+Theorem C19_refresh_other_groups_untouched : forall (hash : N -> N) mk s j r v ttl neg s' q c,
+  (exists t0 ls, p_run hash ls (p_init t0) = Some s) ->
+  nth_error (p_refs s) j = Some r -> r_pc r = RfStore v ttl neg -> p_step hash s (PlRef j) = Some s' ->
+  pg_marker_bytes mk -> (q < 4294967296)%N ->
+  (forall h, nth_error (p_hits s) (r_by r) = Some h -> h_q h = pg_key mk q c) ->
+  forall q2 c2, (q2 < 4294967296)%N -> (q2 <> q \/ pg_group mk c2 <> pg_group mk c) ->
+     pg_lookup mk (p_cache s') q2 c2 = pg_lookup mk (p_cache s) q2 c2.
+Proof. exact refresh_store_other_groups. Qed.
+Print Assumptions C19_refresh_other_groups_untouched.
+
+(* at most one refresh in flight per (question, group), whichever clients of the group hit *)
+Theorem C19_single_flight_per_group : forall (hash : N -> N) mk s j1 j2 r1 r2 q c1 c2,
+  (exists t0 ls, p_run hash ls (p_init t0) = Some s) ->
+  nth_error (p_refs s) j1 = Some r1 -> nth_error (p_refs s) j2 = Some r2 ->
+  r_pc r1 <> RfFin -> r_pc r2 <> RfFin ->
+  r_q r1 = pg_key mk q c1 -> r_q r2 = pg_key mk q c2 -> pg_group mk c1 = pg_group mk c2 -> j1 = j2.
+Proof. exact single_flight_grouped. Qed.
+Print Assumptions C19_single_flight_per_group.
+
+(* The design of the code: the client address is copied when the goroutine is spawned, so the state of the
+   hit's (pooled) request context when the upstream answers — still live, zeroed, or reused by a request of any
+   other client — does not matter. *)
+Theorem C19_refresh_by_value : forall mk q c sl e cache,
+  pg_refresh_store false mk q c sl e cache = p_cache_store (pg_key mk q c) e cache /\
+  pg_refresh_client false c sl = c.
+Proof. intros. split; [apply refresh_by_value_ignores_slot|reflexivity]. Qed.
+Print Assumptions C19_refresh_by_value.
+
+(* The other design — keep the *RequestContext and read rc.RemoteAddr when the upstream has answered — is
+   REFUTED: marker {10.0.0.0-10.255.255.255 = "lan", 192.168.0.0-192.168.255.255 = "guest"}, question 1, hit by
+   10.1.2.3 on lan's entry; by the time the upstream answers the context is zeroed (-> the renewed entry lands in
+   group "", lan keeps the old one) or belongs to a request of 192.168.1.1 (-> it lands in group guest).  On the
+   same inputs the by-value design renews lan's entry and leaves the other groups without one. *)
+Definition ex_mk : option (list range) := Eval vm_compute in
+  load_marker [MRange (NlA4 167772160) (NlA4 184549375) [108; 97; 110]%N;
+               MRange (NlA4 3232235520) (NlA4 3232301055) [103; 117; 101; 115; 116]%N].
+Definition ex_lan1 : option nl_addr := Some (NlA4 167838211).     (* 10.1.2.3 *)
+Definition ex_lan2 : option nl_addr := Some (NlA4 168364297).     (* 10.9.9.9 *)
+Definition ex_guest : option nl_addr := Some (NlA4 3232235777).   (* 192.168.1.1 *)
+Definition ex_out : option nl_addr := Some (NlA4 134744072).      (* 8.8.8.8 *)
+Definition ex_old : pentry := mkPentry 0 120 7 false.
+Definition ex_new : pentry := mkPentry 100 220 8 false.
+Definition ex_cache : list (N * pentry) := [(pg_key ex_mk 1 ex_lan1, ex_old)].
+
+Theorem C19_refresh_reread_refuted :
+  exists mk q c c' cache e_old e_new,
+    pg_marker_bytes mk /\ e_old <> e_new /\
+    pg_group mk c <> [] /\ pg_group mk c' <> [] /\ pg_group mk c <> pg_group mk c' /\
+    pg_lookup mk cache q c = Some e_old /\ pg_lookup mk cache q None = None /\ pg_lookup mk cache q c' = None /\
+    (pg_lookup mk (pg_refresh_store true mk q c PgRcZeroed e_new cache) q c = Some e_old /\
+     pg_lookup mk (pg_refresh_store true mk q c PgRcZeroed e_new cache) q None = Some e_new) /\
+    (pg_lookup mk (pg_refresh_store true mk q c (PgRcReused c') e_new cache) q c = Some e_old /\
+     pg_lookup mk (pg_refresh_store true mk q c (PgRcReused c') e_new cache) q c' = Some e_new) /\
+    (forall sl, pg_lookup mk (pg_refresh_store false mk q c sl e_new cache) q c = Some e_new /\
+                pg_lookup mk (pg_refresh_store false mk q c sl e_new cache) q None = None /\
+                pg_lookup mk (pg_refresh_store false mk q c sl e_new cache) q c' = None).
+Proof.
+  exists ex_mk, 1%N, ex_lan1, ex_guest, ex_cache, ex_old, ex_new.
+  split; [repeat (constructor; try reflexivity)|].
+  split; [discriminate|].
+  split; [vm_compute; discriminate|]. split; [vm_compute; discriminate|]. split; [vm_compute; discriminate|].
+  split; [vm_compute; reflexivity|]. split; [vm_compute; reflexivity|]. split; [vm_compute; reflexivity|].
+  split; [split; vm_compute; reflexivity|]. split; [split; vm_compute; reflexivity|].
+  intros sl. rewrite refresh_by_value_ignores_slot. repeat split; vm_compute; reflexivity.
+Qed.
+Print Assumptions C19_refresh_reread_refuted.
+
 (* ------------------------------------------------------------------ non-vacuity *)
 Definition s_ns : Z := 1000000000.
 
@@ -352,3 +477,25 @@ Example C19_example_fan :
   firstn 130 (pfs_atts ex_fan) = repeat (Some true) 130 /\
   skipn 130 (pfs_atts ex_fan) = repeat (Some false) 129.
 Proof. vm_compute. repeat split; reflexivity. Qed.
+
+(* client groups (the scripted run of kind prefetchgrp): lan's entry for question 1 is in its last quarter, guest's is
+   fresh, the unlabelled space and "no valid address" have none.  Five clients ask together: the two lan clients
+   are answered 7 and ONE of them reserves, guest is answered its own 9 without a refresh, the other two miss.
+   The upstream answers 8: afterwards the OTHER lan client gets 8 with renewed instants, guest still its 9, the
+   unlabelled clients still miss; one refresh query, for lan's key; nothing in flight. *)
+Definition ex_groups : psummary := Eval vm_compute in
+  pg_scenario ex_mk 0 [PgStore 1 ex_lan1 7 (120 * s_ns) false; PgTick (90 * s_ns);
+                       PgStore 1 ex_guest 9 (120 * s_ns) false; PgTick (10 * s_ns);
+                       PgBurst 1 [ex_lan1; ex_lan2; ex_guest; ex_out; None]; PgSend 0; PgTick s_ns;
+                       PgUp 0 (RfOk 8 (120 * s_ns) false); PgTick 100000000;
+                       PgHit 1 ex_lan2; PgHit 1 ex_guest; PgHit 1 ex_out; PgHit 1 None].
+Example C19_example_groups :
+  pfs_sent ex_groups = [pg_key ex_mk 1 ex_lan1] /\ pfs_max ex_groups = 1%nat /\ pfs_inflight ex_groups = [] /\
+  pfs_atts ex_groups = [Some true; Some false; None; None; None; None; None; None; None] /\
+  pfs_answers ex_groups =
+    [Some (mkPentry 0 (120 * s_ns) 7 false); Some (mkPentry 0 (120 * s_ns) 7 false);
+     Some (mkPentry (90 * s_ns) (210 * s_ns) 9 false); None; None;
+     Some (mkPentry (101 * s_ns) (221 * s_ns) 8 false); Some (mkPentry (90 * s_ns) (210 * s_ns) 9 false); None; None] /\
+  pg_key ex_mk 1 ex_lan1 = pg_key ex_mk 1 ex_lan2 /\ pg_key ex_mk 1 ex_lan1 <> pg_key ex_mk 1 ex_guest /\
+  pg_key ex_mk 1 ex_out = pg_key ex_mk 1 None.
+Proof. vm_compute. repeat split; try reflexivity; discriminate. Qed.
